@@ -232,6 +232,11 @@ static void qt_loop_spawner(const size_t start,
         } else {
             qwa.sync = sync.syncvar;
         }
+        if (sync_type == SYNCVAR_T) {
+            retptr = sync.syncvar + threadct;
+        } else if (sync_type == ALIGNED) {
+            retptr = sync.aligned + threadct;
+        }
         qassert(qthread_spawn((qthread_f)qt_loop_wrapper,
                               &qwa, sizeof(struct qt_loop_wrapper_args),
                               retptr,
